@@ -7,6 +7,7 @@ from mirsym import engine as E
 from mirsym import summaries as S
 from mirsym.engine import Agg, Ref, is_sym
 from . import common as C
+from . import contracts as K
 
 PROP = 'C03'
 
@@ -46,8 +47,15 @@ def run_pair(L, i, j, S_lo, S_hi, zero=False):
 def worker(t):
     prog = H.get_program()
     S.BITS_MODE[:] = ['uf', 128]
-    return H.explore_task(prog, run_pair(t['L'], t['i'], t['j'], t['slo'], t['shi'], t.get('zero', False)), task=t, loop_bound=3000,
-                          timeout_ms=60000, deadline_s=900)
+    saved = list(E.DEFAULT_OVERRIDES)
+    try:
+        # digit counting (not used by the pinned Hash, but by plausible rewrites of it) by its contract, as in C06/C07/C08
+        E.DEFAULT_OVERRIDES[:] = K.DIGIT_CONTRACTS
+        K.DIGITS_MAX[0] = t['L'] + max(t['i'], t['j']) + 3
+        return H.explore_task(prog, run_pair(t['L'], t['i'], t['j'], t['slo'], t['shi'], t.get('zero', False)), task=t, loop_bound=3000,
+                              timeout_ms=60000, deadline_s=900)
+    finally:
+        E.DEFAULT_OVERRIDES[:] = saved
 
 
 def confirm(v):
